@@ -22,6 +22,10 @@ var YAMLShapes = []string{
 	"!wait-optional '$'", "!wait-optional x", "!wait-optional {a: b}", "!soft-optional [x]", "!soft-optional '$.input'",
 	"!!binary aGVsbG8=", "!!float .nan", "!!int 0x10", "!unknowntag x", "!!set {a, b}", "2001-12-14t21:59:43.10-05:00",
 	"|\n  multi\n  line\n", "\"\\u0000\"",
+	// anchors and aliases, inserted textually (an anchored collection that contains itself, mutual
+	// containment, fan-out of aliases, an undefined alias)
+	"TEXT:&va [*va]", "TEXT:&va {k: *va}", "TEXT:&va [[x, *va]]", "TEXT:&va [&vb [*va], *vb]", "TEXT:&va {k: {j: [*va]}}",
+	"TEXT:[&va [x, x], &vb [*va, *va], &vc [*vb, *vb], &vd [*vc, *vc]]", "TEXT:*vundefined", "TEXT:[&va {a: b}, *va]",
 }
 
 type yamlPos struct {
@@ -67,6 +71,19 @@ func CorruptYAML(doc string, position int, op int) (string, string, bool) {
 	where := fmt.Sprintf("line %d col %d (%s)", target.Line, target.Column, short(target.Value, 20))
 	desc := ""
 	switch {
+	case op < len(YAMLShapes) && strings.HasPrefix(YAMLShapes[op], "TEXT:"):
+		const placeholder = "VERIFSHAPEPLACEHOLDER"
+		p.parent.Content[p.index] = &yaml.Node{Kind: yaml.ScalarNode, Tag: "!!str", Value: placeholder}
+		out, err := yaml.Marshal(&root)
+		if err != nil || strings.Count(string(out), placeholder) != 1 {
+			return "", "", false
+		}
+		shape := strings.TrimPrefix(YAMLShapes[op], "TEXT:")
+		kind := "value"
+		if p.isKey {
+			kind = "key"
+		}
+		return strings.Replace(string(out), placeholder, shape, 1), fmt.Sprintf("%s at %s replaced by the text %q", kind, where, shape), true
 	case op < len(YAMLShapes):
 		var sn yaml.Node
 		if err := yaml.Unmarshal([]byte(YAMLShapes[op]), &sn); err != nil || len(sn.Content) == 0 {
